@@ -7,7 +7,9 @@
 (* rules in v2/pkg/grpctest/mockservice.go, mockservice_enums.go, util.go   *)
 (* (ids / names are functions of the arguments and of the list index).      *)
 (* A tree may be partial: fields it does not mention (field resolvers,      *)
-(* fields whose rule is not modelled) are not judged.                       *)
+(* fields whose rule is not modelled) are not judged.  A tree only lists a  *)
+(* field with arguments if the mock ignores them.  op.dv selects the data   *)
+(* variant the driver's service answers with ("" = stock mock, "v1").       *)
 (*   DataErrs(op, resp)  every selected position whose value the universe   *)
 (*                       knows carries exactly that value:                  *)
 (*                       resp(q)[p] = Expected(p)  (also null-ness and list *)
@@ -37,6 +39,16 @@ Subcats(catId, kind, n) ==
      @@ "name" :> DS(Proto(kind) \o " Subcategory " \o N(j))
      @@ "description" :> DS("Subcategory " \o N(j) \o " for " \o catId)
      @@ "isActive" :> DB(TRUE))])
+\* mockservice_resolve.go: field resolvers whose result is a function of the PARENT's context (id, name) and of the
+\* parent's index i0 (0-based) in the resolver request -- every parent must be resolved with its own context
+\* ResolveCategoryChildCategories (context "id name"; the include argument is ignored)
+ChildCategories(id, name, i0) ==
+  DL([k \in 1..2 |-> DO("Category",
+        "id" :> DS("child-category-" \o id \o "-" \o N(i0 + k - 1))
+     @@ "name" :> DS("Child Category " \o name \o " " \o N(i0 + k - 1))
+     @@ "kind" :> DS("OTHER"))])
+\* ResolveCategoryTotalProducts: (i0 + 1) * 42
+TotalProducts(i0) == DI((i0 + 1) * 42)
 \* QueryCategories: one category per kind, i = 1..4, i subcategories
 Categories ==
   DL([i \in 1..4 |-> DO("Category",
@@ -44,7 +56,27 @@ Categories ==
      @@ "name" :> DS(Proto(KindSeq[i]) \o " Category")
      @@ "kind" :> DS(KindSeq[i])
      @@ "subcategories" :> Subcats("category-" \o N(i), KindSeq[i], i)
-     @@ "nullMetrics" :> DN)])
+     @@ "nullMetrics" :> DN
+     @@ "childCategories" :> ChildCategories("category-" \o N(i), Proto(KindSeq[i]) \o " Category", i - 1)
+     @@ "totalProducts" :> TotalProducts(i - 1))])
+
+\* ----- data variant "v1" (harness/cmd/grpc variantService): data the stock mock never returns
+\* categories whose context field `name` holds the proto3 default value in a non-last parent
+V1Names == <<"Alpha", "", "Gamma">>
+CategoriesV1 ==
+  DL([i \in 1..3 |-> DO("Category",
+        "id" :> DS("category-" \o N(i)) @@ "name" :> DS(V1Names[i]) @@ "kind" :> DS("BOOK")
+     @@ "subcategories" :> DN @@ "nullMetrics" :> DN
+     @@ "childCategories" :> ChildCategories("category-" \o N(i), V1Names[i], i - 1)
+     @@ "totalProducts" :> TotalProducts(i - 1))])
+\* nested lists with NULL inner lists (mixed nullability per level)
+SL(s) == DL([i \in DOMAIN s |-> DS(s[i])])
+BlogPostV1 ==
+  DO("BlogPost", "id" :> DS("blog-v1") @@ "title" :> DS("Variant 1")
+     @@ "relatedTopics" :> DL(<<SL(<<"a", "b">>), DN, SL(<<"c">>)>>)              \* [[String!]]!
+     @@ "suggestions" :> DL(<<SL(<<"s1">>), DN, SL(<<"s2", "s3">>)>>)             \* [[String]]
+     @@ "tagGroups" :> DL(<<SL(<<"x">>), SL(<<"y", "z">>)>>)                      \* [[String!]!]!
+     @@ "contributorTeams" :> DL(<<DL(<<DO("User", "id" :> DS("u1") @@ "name" :> DS("U 1"))>>), DN>>))   \* [[User!]]
 \* QueryCategory(id): no subcategories set (nullable list -> null)
 Category(id) ==
   DO("Category", "id" :> DS(id) @@ "name" :> DS("Category " \o id) @@ "kind" :> DS("BOOK")
@@ -113,6 +145,8 @@ RootData(f) ==
     [] f.name = "testContainers" -> TestContainers
     [] f.name = "testContainer" -> TestContainer(ArgStr(f, "id"))
     [] f.name = "allPets" -> AllPets
+KnownRootsV1 == {"categories", "blogPost"}
+RootDataV1(f) == IF f.name = "categories" THEN CategoriesV1 ELSE BlogPostV1
 
 \* ----- resp(q)[p] = Expected(p)
 RECURSIVE DataVal(_, _, _, _)
@@ -130,7 +164,7 @@ DataVal(sel, d, j, c) ==
   ELSE IF j.t # "o" THEN {}
   ELSE LET fl == Flat(sel, d.tn) IN
        UNION { LET f == Merged(fl, key) IN
-               IF f.name \in DOMAIN d.f /\ Len(f.args) = 0 /\ JHas(j, key)
+               IF f.name \in DOMAIN d.f /\ JHas(j, key)
                THEN DataVal(f.sel, d.f[f.name], JGet(j, key), <<c[1], d.tn, f.name>>)
                ELSE {}
              : key \in KeysOf(fl) }
@@ -141,8 +175,10 @@ DataErrs(op, resp) ==
        IF dd.t # "o" THEN {}
        ELSE LET fl == Flat(op.sel, "Query") IN
             UNION { LET f == Merged(fl, key) IN
-                    IF f.name \in KnownRoots /\ JHas(dd, key)
+                    IF op.dv = "" /\ f.name \in KnownRoots /\ JHas(dd, key)
                     THEN DataVal(f.sel, RootData(f), JGet(dd, key), <<f.name, "Query", f.name>>)
+                    ELSE IF op.dv = "v1" /\ f.name \in KnownRootsV1 /\ JHas(dd, key)
+                    THEN DataVal(f.sel, RootDataV1(f), JGet(dd, key), <<f.name, "Query", f.name>>)
                     ELSE {}
                   : key \in KeysOf(fl) }
 =============================================================================
